@@ -111,6 +111,18 @@ func asRandomScenario(rng *rand.Rand, ops [][2]string, vias []string) (*asScenar
 		cp[p+"x"] = p
 		sc.Parent = cp
 	}
+	if rng.Intn(8) == 0 {
+		// a leaf whose OnPrelaunch fails when it is first spawned: ActorOf returns an error, the actor never exists
+		var leaves []string
+		for _, n := range sc.Names {
+			if !hasKids(n) && par[n] != "root" {
+				leaves = append(leaves, n)
+			}
+		}
+		if len(leaves) > 0 {
+			sc.Cfg.SpawnPrelaunchFail = []string{leaves[rng.Intn(len(leaves))]}
+		}
+	}
 	if rng.Intn(4) == 0 {
 		// a supervisor whose decisions differ from one consultation to the next
 		p := parents[rng.Intn(len(parents))]
@@ -490,7 +502,8 @@ func init() {
 			rule: base + "Judged by SuperviseMon."})
 	})
 	register("C05", func(c *core.Ctx) {
-		asCheck(c, asPlan{prop: "C05", monitors: []string{"LifecycleMon"}, mc: []string{"MC_T3_" + asVariant + ".cfg"}, gen: []string{"Gen_T3_" + asVariant + ".cfg"}, ops: asOpsBasic,
+		asCheck(c, asPlan{prop: "C05", monitors: []string{"LifecycleMon"}, mc: []string{"MC_T3_" + asVariant + ".cfg"}, gen: []string{"Gen_T3_" + asVariant + ".cfg"},
+			ops:  append(append([][2]string{}, asOpsBasic...), [2]string{"become", ""}, [2]string{"become", ""}, [2]string{"become!", ""}, [2]string{"unbecome", ""}, [2]string{"unbecome!", ""}),
 			rule: base + "Judged by LifecycleMon. Plus an ungated run: thousands of spawns next to a greeter that reacts to ActorSpawnedEvent and a sender that tells children by path, with a delay injected just before OnLaunch is enqueued."})
 		if c.IsBroken() {
 			return
